@@ -45,9 +45,10 @@ class Rule :
                     return
 
             if hasattr(self, 'path_namespace'):
+                ns = self.path_namespace.rstrip('/')
                 if (
                     m.path is None
-                    or not m.path.startswith(self.path_namespace)
+                    or not (m.path == ns or m.path.startswith(ns + '/'))
                 ):
                     return
 
